@@ -42,4 +42,37 @@ pub(crate) mod __verif_k {
         assert!(gc.objects.len() == 0);
         std::mem::forget(gc);
     }
+
+    /// concrete heap shape and root set, symbolic payloads
+    macro_rules! floats_harness {
+        ($name:ident, $keep_a:expr, $keep_b:expr) => {
+            #[kani::proof]
+            #[kani::unwind(5)]
+            fn $name() {
+                let mut gc = GC::new();
+                let xa: u64 = kani::any();
+                let xb: u64 = kani::any();
+                let a = Object::float(f64::from_bits(xa), &mut gc);
+                let b = Object::float(f64::from_bits(xb), &mut gc);
+                let ra = [a];
+                let rb = [Object::int(kani::any::<i32>() as isize), b];
+                let empty: [Object; 0] = [];
+                let r1: &[Object] = if $keep_a { &ra } else { &empty };
+                let r2: &[Object] = if $keep_b { &rb } else { &empty };
+                gc.run(&[r1, r2]);
+                assert!(gc.objects.len() == $keep_a as usize + $keep_b as usize);
+                assert!(managed(&gc, a) == $keep_a && managed(&gc, b) == $keep_b);
+                if $keep_a { assert!(a.as_f64().to_bits() == xa); }
+                if $keep_b { assert!(b.as_f64().to_bits() == xb); }
+                gc.destroy();
+                assert!(gc.objects.len() == 0);
+                kani::cover!(xa == 7);
+                std::mem::forget(gc);
+            }
+        };
+    }
+    floats_harness!(c03_floats_keep_none, false, false);
+    floats_harness!(c03_floats_keep_a, true, false);
+    floats_harness!(c03_floats_keep_b, false, true);
+    floats_harness!(c03_floats_keep_both, true, true);
 }
